@@ -244,7 +244,7 @@ class MiniLoop:
     def __init__(self):
         self.tasks = []
         self.timers = []
-        self.now = 0.0
+        self.now = 0
         self.connector = None      # set by client harnesses: coroutine fn(factory, host, port, ssl, server_hostname)
         self.server_factory = None
 
@@ -261,6 +261,10 @@ class MiniLoop:
         return MiniFuture(self)
 
     def call_later(self, delay, cb, *args):
+        # whole-second delays are kept as ints: comparing a float deadline with a symbolic
+        # int instant would drag the engine into its (incomplete) real-number model
+        if type(delay) is float and delay.is_integer():
+            delay = int(delay)
         h = MiniHandle(self.now + delay, cb, args)
         self.timers.append(h)
         return h
